@@ -609,6 +609,21 @@ def ownership_gap(rep, split=False):
                     rep.bad('R19.b', key, cs.loc(), '%s releases ownership without dropping (%s) in codec code: on an error path the allocation is never freed' % (b.key, cs.callee))
     if n < 1:
         rep.anchor_missing('R19.b', 'mem::forget in prost string::merge')
+    # ptr::write through a `&mut T` parameter overwrites a live value without running its destructor
+    for b in prog.bodies.values():
+        if b.crate not in ('vgen', 'pilota'):
+            continue
+        if b.crate == 'pilota' and not (b.key.startswith('thrift::') or b.key.startswith('<thrift::') or b.key.startswith('prost::') or b.key.startswith('<prost::')):
+            continue
+        for cs in b.calls():
+            if cs.name == 'write' and re.search(r'ptr::write$|mut_ptr::<impl \*mut T>::write$', cs.callee) and cs.t['args']:
+                dst = cs.arg(0)
+                x = dst
+                while x and x[0] in ('cast', 'rawptr', 'ref', 'deref'):
+                    x = x[3] if x[0] == 'cast' else x[1]
+                nd = cs.t.get('gargs_needs_drop') or [True]
+                if x and x[0] == 'arg' and b.locals[x[1]]['ty'].startswith('&mut') and any(nd):
+                    rep.bad('R19.b', 'R19.b|%s|ptr::write through a &mut parameter' % (b.id if b.crate == 'pilota' else 'generated'), cs.loc(), '%s overwrites *%s with ptr::write: the value already there (an earlier occurrence of the field, a merged-into message) is never dropped, and neither is the input buffer it may reference' % (b.key, x[2]))
 
 
 # ------------------------------------------------------------------------------------------------ C20
@@ -667,6 +682,50 @@ def f64_bits(x):
     return _struct.unpack('<Q', _struct.pack('<d', float(x)))[0]
 
 
+def _unescape(t):
+    """value of an IDL string literal body: the generator pastes it into a Rust string literal, whose escapes rustc resolves"""
+    out, i = [], 0
+    m = {'n': '\n', 't': '\t', 'r': '\r', '0': '\0', '\\': '\\', '"': '"', "'": "'"}
+    while i < len(t):
+        if t[i] == '\\' and i + 1 < len(t) and t[i + 1] in m:
+            out.append(m[t[i + 1]])
+            i += 2
+        else:
+            out.append(t[i])
+            i += 1
+    return ''.join(out)
+
+
+def expected_somes(F, ty, lit, req):
+    """number of `Some(..)` wrappers the Default value of a field holds: one for an optional field that has a default, plus
+    those of the optional members a struct-literal default spells out"""
+    # pilota maps every field that is not `required` to Option<T>
+    n = 1 if (req != 'required' and lit is not None) else 0
+    if lit is None:
+        return n
+    k, d, rt, ff = F.resolve(ty)
+    lit = lit.strip()
+    if k in ('struct', 'exception') and lit.startswith('{'):
+        inner = lit[1:-1].strip()
+        given = {}
+        for kv in idl.split_top(inner) if inner else []:
+            kk, vv = idl.split_top(kv, ':')
+            given[kk.strip().strip('"\'')] = vv
+        for f in d.fields:
+            if f.name in given:
+                n += expected_somes(ff, f.ty, given[f.name], f.req)
+    elif k in ('list', 'set') and lit.startswith('['):
+        inner = lit[1:-1].strip()
+        for el in idl.split_top(inner) if inner else []:
+            n += expected_somes(ff, rt[1], el, 'required')
+    elif k == 'map' and lit.startswith('{'):
+        inner = lit[1:-1].strip()
+        for kv in idl.split_top(inner) if inner else []:
+            kk, vv = idl.split_top(kv, ':')
+            n += expected_somes(ff, rt[1], kk, 'required') + expected_somes(ff, rt[2], vv, 'required')
+    return n
+
+
 def literal_leaves(F, ty, lit, optional_ctx=False):
     """expected ordered leaves of the Rust expression for an IDL default literal of declared type ty"""
     lit = lit.strip()
@@ -695,7 +754,7 @@ def literal_leaves(F, ty, lit, optional_ctx=False):
         if n == 'double':
             return [('f64', f64_bits(lit))]
         if n in ('string', 'binary'):
-            return [('str', lit[1:-1])]
+            return [('str', _unescape(lit[1:-1]))]
         return [('?', lit)]
     if k == 'enum':
         if re.fullmatch(r'-?\d+', lit):
@@ -800,6 +859,22 @@ def defaults(rep, split=False):
                 pos += len(lv)
             rep.bad('G20.b', key, db.loc(), '%s: Default::default() differs from the IDL defaults at field %s (IDL default `%s`): expected leaf %s; leaves only in the IDL %s, only in the generated code %s' % (
                 ti.label, culprit.name if culprit else '?', culprit.default if culprit else '?', want[i] if i < len(want) else 'end', only_want[:4], only_got[:4]))
+        # G20.s presence: exactly the optional fields that HAVE an IDL default are `Some(..)`; every other optional field is absent
+        want_some = sum(expected_somes(ti.F, f.ty, f.default, f.req) for f in ti.fields)
+        got_some = 0
+        for x in [db] + sorted(g.cg.children.get(db.id, []), key=lambda c: c.key):
+            for bb in x.bbs:
+                if bb['cleanup']:
+                    continue
+                for st in bb['st']:
+                    r = st.get('r', {})
+                    if r.get('k') == 'agg' and r['kind'].endswith('option::Option::Some'):
+                        got_some += 1
+        key = 'G20.s|%s' % ti.label
+        if got_some == want_some:
+            rep.ok('G20.s', key, '%d Some(..) in Default::default() = optional fields (and members of struct literals) that have an IDL default' % got_some, db.loc())
+        else:
+            rep.bad('G20.s', key, db.loc(), '%s: Default::default() builds %d `Some(..)` values but the IDL gives a default to %d optional fields / struct-literal members: an optional field without a default must be absent (None), one with a default present' % (ti.label, got_some, want_some))
         # G20.a the decoders fill absent fields with the same values
         dl = Counter(l for l in got if l != ('default',))
         for which in ('decode', 'decode_async'):
